@@ -92,8 +92,21 @@ def q1_formulas(ctx):
             try:
                 got = to_rat(inner[2][0], leaf, strip)
             except NotArithmetic as e:
-                ctx.finding('Q1', '%s/%s/not-arithmetic' % (rule, kind), 'value of %s (%s arm) is not a rational expression of its operands: %s (%s)' % (rule, kind, render(inner[2][0])[:120], e), site=b.loc)
-                continue
+                # a value merged from several arms (a shared helper selecting the formula by a flag fixed at the call site):
+                # every arm that is feasible under the path conditions must be the statement's formula
+                got = None
+                try:
+                    alts_ = alternatives(b, inner[2][0], _conds=conds)
+                    vals_ = [to_rat(a_, leaf, strip) for a_, _c in alts_]
+                    if vals_ and all(v_.equals(vals_[0]) for v_ in vals_):
+                        got = vals_[0]
+                    elif vals_:
+                        got = next(v_ for v_ in vals_ if not v_.equals(want))
+                except (NotArithmetic, Exception):
+                    got = None
+                if got is None:
+                    ctx.finding('Q1', '%s/%s/not-arithmetic' % (rule, kind), 'value of %s (%s arm) is not a rational expression of its operands: %s (%s)' % (rule, kind, render(inner[2][0])[:120], e), site=b.loc)
+                    continue
             if got.equals(want):
                 ctx.ok('Q1', '%s -> %s(%s) == %s' % (rule, kind, render(inner[2][0])[:90], text), 'ratfun', site=b.loc)
             else:
